@@ -133,6 +133,53 @@ func runDestroy(c *engine.Ctx, tuples []tuple) {
 				}
 				t.Nontrivial(fmt.Sprintf("destroy/%d/%v", ti, conf))
 			}
+			// the SAME long-term key objects through three sessions in a row, default identities (nil) and explicit
+			// ones alternating, every session object destroyed at its end: each session must give the key of the first
+			{
+				ka, kb := priv(dA, pubA), priv(dB, pubB)
+				var first [2][]byte
+				for round := 0; round < 4; round++ {
+					var ua, ub []byte
+					if round == 2 {
+						ua, ub = uidA, uidB
+					}
+					ini, e1 := sm2.NewKeyExchange(ka, &kb.PublicKey, ua, ub, 32, true)
+					rsp, e2 := sm2.NewKeyExchange(kb, &ka.PublicKey, ub, ua, 32, true)
+					if e1 != nil || e2 != nil {
+						t.Fail("destroy/setup", "NewKeyExchange: %v %v", e1, e2)
+						break
+					}
+					RA, err := ini.InitKeyExchange(engine.NewScriptReader(b32(rA)))
+					if err != nil {
+						break
+					}
+					RB, SB, err := rsp.RepondKeyExchange(engine.NewScriptReader(b32(rB)), RA)
+					if err != nil {
+						break
+					}
+					k1, SA, err := ini.ConfirmResponder(RB, SB)
+					var k2 []byte
+					if err == nil {
+						k2, err = rsp.ConfirmInitiator(SA)
+					}
+					t.Eval(4)
+					idx := 0
+					if round == 2 {
+						idx = 1
+					}
+					switch {
+					case err != nil || !bytes.Equal(k1, k2):
+						t.Fail("destroy/sessions-on-one-key-object/session-fails", "session %d on the same key objects (after %d destroyed sessions): err=%v keys %x / %x", round+1, round, err, k1, k2)
+					case first[idx] == nil:
+						first[idx] = k1
+					case !bytes.Equal(first[idx], k1):
+						t.Fail("destroy/sessions-on-one-key-object/key-differs", "session %d gives %x, the first session with the same inputs gave %x", round+1, k1, first[idx])
+					}
+					ini.Destroy()
+					rsp.Destroy()
+				}
+				t.Nontrivial(fmt.Sprintf("destroy/sessions/%d", ti))
+			}
 		})
 	}
 }
